@@ -87,10 +87,19 @@ func (c *Ctx) Quick() bool { return c.Tier != "thorough" }
 
 // N picks the case count for the tier.
 func (c *Ctx) N(quick, thorough int) int {
+	n := thorough
 	if c.Quick() {
-		return quick
+		n = quick
 	}
-	return thorough
+	if c.Arch386 {
+		// the 32-bit pass runs on fewer shards: a third of the quick count, a tenth of the thorough count
+		if c.Quick() {
+			n = (n + 2) / 3
+		} else {
+			n = (n + 9) / 10
+		}
+	}
+	return n
 }
 
 // OpenMarker opens the crash-marker file for this worker.
